@@ -68,6 +68,7 @@ Proof. exact collect_metadata_total. Qed.
 Print Assumptions C15_comment_total.
 Theorem C15_key_without_value_refuted : collect_metadata_d23 [97; 58; 32; 58] = None /\ collect_metadata [97; 58; 32; 58] = Some [([97], None)].
 Proof. exact key_without_value_refuted. Qed.
+Print Assumptions C15_key_without_value_refuted.
 
 Example C15_nonvacuous :
   (* ~ id: p1 return-mode: no-matches ~ $f[*][yes()] *)
